@@ -243,3 +243,25 @@ Proof.
   intros Hsim Hm Hc. destruct (inh_all tenv0 jenv0 tb Hsim n te sh j Hm Hc) as [m Hm'].
   exists m. intros m' Hle. apply (inh_mono_le tenv0 m m' te j Hle Hm').
 Qed.
+
+(** * the premise is satisfiable *)
+Definition ex_tenv : tenv := [
+  ("Int", TDBrand TNumber); ("Color", TDEnum [JNum "0"; JNum "1"]); ("Ar2_Int", TDTuple 2 (TRef "Int"));
+  ("Leaf", TDEmptyRecord); ("Shape", TDUnion [("Leaf", TRef "Leaf"); ("Num", TRef "Int")]);
+  ("Name", TDAlias TString);
+  ("Root", TDInterface [("name", TRef "Name"); ("C", TRef "Color"); ("P", TRef "Ar2_Int"); ("S", TNullable (TArr (TRef "Shape"))); ("D", TNullable (TRecord TString TString))])
+].
+Definition ex_jenv3 : jenv := [
+  ("Leaf", DObject []);
+  ("Shape", DUnion [("Leaf", ShRef "Leaf"); ("Num", ShNumber)]);
+  ("Root", DObject [("name", ShString, false); ("C", ShEnum [JNum "0"; JNum "1"], false); ("P", ShTuple 2 ShNumber, false);
+                    ("S", ShNullable (ShArrayOf (ShRef "Shape")), false); ("D", ShNullable (ShMapOf ShString), false)])
+].
+Definition ex_ttable : ttable := tbuild ex_tenv ex_jenv3 8 (TRef "Root") (ShRef "Root").
+Definition ex_doc3 : json :=
+  JObj [("name", JStr "a"); ("C", JNum "1"); ("P", JArr [JNum "1"; JNum "2"]);
+        ("S", JArr [JObj [("Kind", JStr "Leaf"); ("Data", JObj [])]; JObj [("Kind", JStr "Num"); ("Data", JNum "3")]]); ("D", JNull)].
+
+Example ex_premises3 : tsim_ok ex_tenv ex_jenv3 ex_ttable = true /\ tmemb ex_ttable (TRef "Root") (ShRef "Root") = true
+  /\ conformsb ex_jenv3 8 (ShRef "Root") ex_doc3 = true /\ inhabitsb ex_tenv 12 (TRef "Root") ex_doc3 = true.
+Proof. vm_compute. repeat split; reflexivity. Qed.
